@@ -5,3 +5,7 @@ pub assume_specification<T: Ord> [core::cmp::max] (a: T, b: T) -> (r: T)
 
 pub assume_specification<T: Ord> [core::cmp::min] (a: T, b: T) -> (r: T)
     ensures T::obeys_cmp_spec() ==> r == (if a.cmp_spec(&b) == core::cmp::Ordering::Greater { b } else { a });
+
+// ASSUMED (std documentation): Ord::clamp(self, min, max) (panics if min > max)
+pub assume_specification [<usize as core::cmp::Ord>::clamp] (v: usize, lo: usize, hi: usize) -> (r: usize)
+    ensures lo <= hi ==> r == (if v < lo { lo } else if v > hi { hi } else { v });
